@@ -161,13 +161,11 @@ func (k *checker) persist9(pairs []pairType) {
 		rep := k.rep(pt.toFn.Pos())
 		// the schema struct
 		var st *types.Struct
-		ssau.AllInstrs(pt.toFn, func(in ssa.Instruction) {
-			if al, ok := in.(*ssa.Alloc); ok && st == nil {
-				if s, ok := schemaStructOf(al.Type().(*types.Pointer).Elem(), pt.named.Obj().Pkg(), pt.named); ok {
-					st = s
-				}
+		if _, al, _ := k.schemaObject(pt); al != nil {
+			if s, ok := schemaStructOf(al.Type().(*types.Pointer).Elem(), pt.named.Obj().Pkg(), pt.named); ok {
+				st = s
 			}
-		})
+		}
 		if st == nil {
 			continue
 		}
